@@ -709,6 +709,31 @@ impl<K: Hash + Eq, V, RH: BuildHasher, REH: BuildHasher, FH: BuildHasher, FEH: B
         self.p
     }
 
+
+    /// Verification hook (feature `verif-hooks`): read-only view of the recent list.
+    #[cfg(feature = "verif-hooks")]
+    pub fn verif_recent(&self) -> &RawLRU<K, V, DefaultEvictCallback, RH> {
+        &self.recent
+    }
+
+    /// Verification hook (feature `verif-hooks`): read-only view of the frequent list.
+    #[cfg(feature = "verif-hooks")]
+    pub fn verif_frequent(&self) -> &RawLRU<K, V, DefaultEvictCallback, FH> {
+        &self.frequent
+    }
+
+    /// Verification hook (feature `verif-hooks`): read-only view of the recent ghost list.
+    #[cfg(feature = "verif-hooks")]
+    pub fn verif_recent_evict(&self) -> &RawLRU<K, V, DefaultEvictCallback, REH> {
+        &self.recent_evict
+    }
+
+    /// Verification hook (feature `verif-hooks`): read-only view of the frequent ghost list.
+    #[cfg(feature = "verif-hooks")]
+    pub fn verif_frequent_evict(&self) -> &RawLRU<K, V, DefaultEvictCallback, FEH> {
+        &self.frequent_evict
+    }
+
     /// Returns the number of key-value pairs that are currently in the recent LRU.
     pub fn recent_len(&self) -> usize {
         self.recent.len()
